@@ -11,7 +11,7 @@ from __future__ import annotations
 
 import posixpath
 from pathlib import PurePosixPath
-from typing import Dict, List, Optional, Tuple
+from typing import List, Optional, Tuple
 
 from ..mainmodel import Outcome, VFS, parse_human, parse_json, run_main
 from ..minieval import Unsupported
